@@ -83,6 +83,8 @@ pub struct Stats {
 #[derive(Clone, Debug, Default)]
 pub struct RefOpts {
     pub observed: bool,
+    /// every node's output is wrapped in the user state observed when it finished (C18)
+    pub obs_state: bool,
     /// V-lead variant: leading separator with zero items is left unconsumed even with allow_trailing
     pub vlead_alt: bool,
     /// V-trail-cap variant: trailing separator consumed after exactly at_most items
@@ -100,6 +102,8 @@ struct Env {
     st_start: usize,
     in_ws: bool,
     depth: u32,
+    /// user-state scope: 0 = the caller's state, a fresh id per with_state invocation
+    scope: u32,
 }
 
 pub struct Rf<'a> {
@@ -113,6 +117,11 @@ pub struct Rf<'a> {
     pub stats: Stats,
     hi: usize,
     fuel: u64,
+    /// token ranges consumed inside with_state invocations on the current path: (outer scope, start, end)
+    ws_ranges: Vec<(u32, usize, usize)>,
+    next_scope: u32,
+    /// user state left behind in the caller's scope after the whole parse
+    pub final_state: (u64, u64),
 }
 
 #[derive(Clone, Debug)]
@@ -126,6 +135,7 @@ pub struct RefOut {
     pub alt: Option<AltR>,
     pub log: Vec<u32>,
     pub stats: Stats,
+    pub final_state: (u64, u64),
 }
 
 type R = Result<(Val, usize), ()>;
@@ -142,9 +152,16 @@ pub fn eval(g: &G, toks: &[char], opts: RefOpts) -> RefOut {
         stats: Stats::default(),
         hi: 0,
         fuel: 400_000,
+        ws_ranges: vec![],
+        next_scope: 1,
+        final_state: (0, 0),
     };
-    let env = Env { ctx: Val::Unit, st_seed: None, st_start: 0, in_ws: false, depth: 0 };
+    let env = Env { ctx: Val::Unit, st_seed: None, st_start: 0, in_ws: false, depth: 0, scope: 0 };
     let res = rf.ev(g, 0, &env);
+    if let Ok((_, e)) = &res {
+        let st = rf.state_at(&env, *e);
+        rf.final_state = (st.n, st.h);
+    }
     let n = toks.len();
     let (prefix, accepted) = match res {
         Ok((v, e)) => {
@@ -163,7 +180,7 @@ pub fn eval(g: &G, toks: &[char], opts: RefOpts) -> RefOut {
             a.fuzzy = true;
         }
     }
-    RefOut { prefix, accepted, emitted: rf.emitted, alt: rf.alt, log: rf.log, stats: rf.stats }
+    RefOut { prefix, accepted, emitted: rf.emitted, alt: rf.alt, log: rf.log, stats: rf.stats, final_state: rf.final_state }
 }
 
 impl<'a> Rf<'a> {
@@ -293,20 +310,31 @@ impl<'a> Rf<'a> {
             return Err(());
         }
         self.fuel -= 1;
+        let ws_mark = self.ws_ranges.len();
         let r = self.node(g, pos, env);
         match r {
             Ok((v, e)) => {
                 if e == pos {
                     self.stats.empty_matches += 1;
                 }
-                if self.opts.observed {
+                let v = if self.opts.observed {
                     let id = self.ids[&(g as *const G)];
-                    Ok((Val::obs(id, pos, e, v), e))
+                    Val::obs(id, pos, e, v)
+                } else {
+                    v
+                };
+                if self.opts.obs_state {
+                    let st = self.state_at(env, e);
+                    Ok((Val::St(st.n, st.h, Box::new(v)), e))
                 } else {
                     Ok((v, e))
                 }
             }
-            Err(()) => Err(()),
+            Err(()) => {
+                // whatever with_state invocations consumed during the failed attempt is off the path
+                self.ws_ranges.truncate(ws_mark);
+                Err(())
+            }
         }
     }
 
@@ -356,7 +384,13 @@ impl<'a> Rf<'a> {
             Some(s) => Insp::seeded(s),
             None => Insp::default(),
         };
-        base.fold(self.toks[env.st_start..e].iter().copied())
+        let scope = env.scope;
+        let rs = &self.ws_ranges;
+        base.fold(
+            (env.st_start..e)
+                .filter(|i| !rs.iter().any(|(sc, a, b)| *sc == scope && a <= i && i < b))
+                .map(|i| self.toks[i]),
+        )
     }
 
     fn node(&mut self, g: &'a G, pos: usize, env: &Env) -> R {
@@ -409,6 +443,11 @@ impl<'a> Rf<'a> {
             Select(set) => match self.tok(pos) {
                 Some(c) if set.contains(c) => {
                     self.adv(pos + 1);
+                    if self.opts.obs_state {
+                        // the closure of select! runs after its token was taken
+                        let st = self.state_at(env, pos + 1);
+                        return Ok((Val::St(st.n, st.h, Box::new(Val::Tok(c))), pos + 1));
+                    }
                     Ok((Val::Tok(c), pos + 1))
                 }
                 _ => {
@@ -464,7 +503,9 @@ impl<'a> Rf<'a> {
                 let em = self.emitted.len();
                 let lg = self.log.len();
                 let old_hi = std::mem::replace(&mut self.hi, pos);
+                let ws = self.ws_ranges.len();
                 let r = self.ev(a, pos, env);
+                self.ws_ranges.truncate(ws);
                 let reached = self.hi;
                 self.hi = old_hi.max(reached);
                 self.alt = saved;
@@ -502,7 +543,9 @@ impl<'a> Rf<'a> {
                 if em > em_a || lg > lg_a {
                     self.stats.kept_under_lookahead += 1;
                 }
+                let ws = self.ws_ranges.len();
                 let r = self.ev(c, pos, env);
+                self.ws_ranges.truncate(ws);
                 self.emitted.truncate(em);
                 self.log.truncate(lg);
                 match r {
@@ -512,7 +555,9 @@ impl<'a> Rf<'a> {
             }
             Rewind(a) => {
                 let em = self.emitted.len();
+                let ws = self.ws_ranges.len();
                 let (va, _) = self.ev(a, pos, env)?;
+                self.ws_ranges.truncate(ws);
                 if self.emitted.len() > em {
                     self.stats.kept_under_lookahead += 1;
                 }
@@ -753,7 +798,12 @@ impl<'a> Rf<'a> {
                 env2.st_seed = Some(*seed);
                 env2.st_start = pos;
                 env2.in_ws = true;
-                self.ev(a, pos, &env2)
+                env2.scope = self.next_scope;
+                self.next_scope += 1;
+                let (v, e) = self.ev(a, pos, &env2)?;
+                // the outer state does not see what was consumed in here
+                self.ws_ranges.push((env.scope, pos, e));
+                Ok((v, e))
             }
             WithCtx(a, s) => {
                 let mut env2 = env.clone();
@@ -852,6 +902,7 @@ impl<'a> Rf<'a> {
                 }
             }
             let step_start = p;
+            let ws_step = self.ws_ranges.len();
             let mut q = p;
             let em = self.emitted.len();
             let lg = self.log.len();
@@ -915,6 +966,7 @@ impl<'a> Rf<'a> {
                             p = q;
                         } else {
                             self.abandon("sep-item", em, lg, reached > step_start);
+                            self.ws_ranges.truncate(ws_step);
                             p = step_start;
                         }
                     } else if had_sep && r.trailing {
@@ -927,6 +979,7 @@ impl<'a> Rf<'a> {
                             lg,
                             reached > step_start,
                         );
+                        self.ws_ranges.truncate(ws_step);
                         p = step_start;
                     }
                     break;
@@ -978,6 +1031,11 @@ impl<'a> Rf<'a> {
                 let mut acc = init.unwrap();
                 for (v, _, e) in items {
                     acc = Val::pair(Val::Span(pos, e), Val::pair(acc, v));
+                    if self.opts.obs_state {
+                        // foldl_with folds as it goes: the callback runs right after each item
+                        let st = self.state_at(env, e);
+                        acc = Val::St(st.n, st.h, Box::new(acc));
+                    }
                 }
                 Ok((acc, p))
             }
@@ -995,6 +1053,11 @@ impl<'a> Rf<'a> {
                 for (v, s, _) in items.into_iter().rev() {
                     // span of the sub-expression being built: from this item's step to the end
                     acc = Val::pair(Val::Span(s, e), Val::pair(v, acc));
+                    if self.opts.obs_state {
+                        // foldr_with folds once everything (incl. the tail) has been parsed
+                        let st = self.state_at(env, e);
+                        acc = Val::St(st.n, st.h, Box::new(acc));
+                    }
                 }
                 Ok((acc, e))
             }
@@ -1078,7 +1141,9 @@ impl<'a> Rf<'a> {
                     let ur = {
                         let em = self.emitted.len();
                         let lg = self.log.len();
+                        let ws = self.ws_ranges.len();
                         let r = self.ev(until, p, env);
+                        self.ws_ranges.truncate(ws);
                         // `until` is only a test here: whatever it did is rolled back
                         self.emitted.truncate(em);
                         self.log.truncate(lg);
